@@ -11,6 +11,7 @@ func init() { register("C01", checkC01) }
 // C01 — AOL records are append-only: immutable, never deleted, densely numbered.
 func checkC01(p *Prog, r *Report) {
 	checkAolExportLoopBounds(p, r, func(rule, rest string) string { return rule + ":C01:" + rest })
+	checkExportLoadsRequestedHeight(p, r, func(rule, rest string) string { return rule + ":C01:" + rest })
 	checkNoDroppedErrors(p, r, "C01", "x/aol/keeper, x/aol/types", func(fn *ssa.Function) bool { return InPkgs(fn, "x/aol/keeper", "x/aol/types") })
 	checkNoNilWrap(p, r, "C01", "x/aol/keeper, x/aol/types", func(fn *ssa.Function) bool { return InPkgs(fn, "x/aol/keeper", "x/aol/types") })
 	r.Explain = "Decided statically (structural necessary conditions, all paths): D1 only the AddRecord handler and InitGenesis can reach a Set under the record prefix, nothing deletes under the owner/topic/record prefixes, every aol store operation is an accessor of one prefix<->key-type family; D2 in the add-record handler the record key's offset is the TotalRecords field of the topic value read under the same (owner, topic) key, the response reports that same term, record content/writer/timestamp come from the message and ctx.BlockTime(); D3 on every success path the record write is paired with storing that topic back with TotalRecords+1 and every other field copied; D4 the aol store key is created, mounted and given only to the aol keeper, no upgrade deletes/renames it and no upgrade handler reaches an aol mutator. By induction over transactions D1-D3 give TotalRecords = #records, a fresh key per append and no later write to an existing record key. Key injectivity is C18. D5 list accessors decode each entry into a variable that is allocated or reset inside the loop (generated Unmarshal merges into its target)."
